@@ -414,6 +414,36 @@ def check(run):
         run.violation("R8", dp.where, "nothing on the load path calls dict_to_path: an exported path dict reaches the Path constructor with plain dicts as entities",
                       key=key_of("C08-R8", "unwired"))
 
+    # ------------------------------------------------------------------ R9 text writers keep significant digits
+    run.rule("R9", "text exporters format coordinates with significant digits (`g`, `e`, repr) - a fixed number of decimals (`.Nf`) erases geometry that is small in absolute terms")
+    n9 = 0
+    for m_ in ix.modules.values():
+        if not (m_.name.startswith("trimesh.exchange.") or m_.name.startswith("trimesh.path.exchange.")):
+            continue
+        for f_ in ix.all_functions:
+            if f_.module is not m_ or "export" not in f_.qualname.lower():
+                continue
+            specs = []
+            for n_ in ast.walk(f_.node):
+                if isinstance(n_, ast.FormattedValue) and n_.format_spec is not None:
+                    specs.append((n_, "".join(v.value for v in n_.format_spec.values if isinstance(v, ast.Constant) and isinstance(v.value, str))))
+                elif isinstance(n_, ast.Constant) and isinstance(n_.value, str) and "{" in n_.value:
+                    specs += [(n_, sp_) for sp_ in re.findall(r"\{[^{}]*:([^{}]*)\}", n_.value)]
+                elif isinstance(n_, ast.BinOp) and isinstance(n_.op, ast.Mod) and isinstance(n_.left, ast.Constant) and isinstance(n_.left.value, str):
+                    specs += [(n_, sp_) for sp_ in re.findall(r"%[-+ 0#]*\d*(\.\d+[a-zA-Z])", n_.left.value)]
+            for node_, sp_ in specs:
+                mm = re.search(r"\.(\d+)([fFgGeE])", sp_)
+                if not mm:
+                    continue
+                n9 += 1
+                fixed = mm.group(2) in "fF" and int(mm.group(1)) > 0
+                where_ = f"{f_.module.rel}:{getattr(node_, 'lineno', f_.node.lineno)} {f_.qualname}"
+                run.instance("R9", where_, f"float format `{sp_}` keeps significant digits: {not fixed}", not fixed)
+                if fixed:
+                    run.violation("R9", where_, f"`{f_.qualname}` writes numbers with `{sp_}`: {mm.group(1)} decimals, not {mm.group(1)} significant digits - coordinates much smaller than one "
+                                                f"lose their leading digits, so a scaled-down drawing or mesh does not reload to the same geometry", key=key_of("C08-R9", f_.qualname, sp_))
+    run.floor("float format specs in text exporters", n9, 5)
+
     run.assume("element-by-element equality of reloaded data, precision, colour order and instance placement are values and are not decided")
     return {
         "explanation": "Interprocedural write-effect analysis of every exporter entry point (nothing rooted at the exported object is written); "
